@@ -3,6 +3,7 @@ import re
 from ir import last_seg
 import analysis as A
 import sqlmod
+import sqlrules
 
 GROUP_COLS = ("group_id", "mls_group_id")
 SNAP = "group_state_snapshots"
@@ -84,6 +85,7 @@ def clause_sqlite(prog, rep, sch, sites):
         rep.check(snap_ok, "sql-cascade", "rollback/DELETE %s/sibling-snapshots" % t,
                   "sibling snapshots that may be cascaded away are saved first and re-inserted",
                   "sibling snapshots cascaded away by DELETE FROM %s are not saved and re-inserted" % t, d.loc())
+    sqlrules.sibling_snapshot_copy(prog, rep, sites, "sql-columns", "rollback/")
     # 2. column coverage
     for t in S:
         sel = [s for s in snap_s if s.stmt.kind == "SELECT" and s.stmt.table == t]
